@@ -50,6 +50,7 @@ fn several(seed: u64, idx: u64) -> Out {
     }
     cfg.loops = loops.clone();
     cfg.loopacc = acc;
+    cfg.skipacc = ACCS[((idx / 7) % 5) as usize];
     out.key = cfg.describe();
     out.cover("several_grid", format!("{} {} loops {}", acc.name(), loops.len(), ["dense", "spatial", "spatial-flattened"][rep]));
     out.count("networks_with_several_loop_connections", 1);
@@ -134,7 +135,7 @@ impl Monitor for C17 {
         vec![("loops", tier.pick(240_000, 4_800_000)), ("several", tier.pick(60_000, 1_200_000))]
     }
     fn rule(&self) -> &'static str {
-        "case i -> accumulation (i mod 5), input skips (i/5 mod 2), iterations k = 1 + (i/10 mod 4), representation (i/40 mod 3: dense range / spatial range of 'same' convolutions, deconvolutions, 1x1 pools and deconvolution+max-pool pairs / the same followed by a dense layer so that the loop output is flattened), position of the range (start / middle / end) and its length 1..3 random, every sixth network additionally has an additive skip connection outside the looped range, every fifth has layers outside the range wrapped into feedback blocks; predict is compared with the reference (o_0 = first output of layer b, o_t = f_{a..b}(o_{t-1} [+ input of a]), passed on = combine(o_0; o_1..o_k)) within the running f32 bound; for overwrite without input skips additionally bit-exact against a plain library network in which layers a..b are physically repeated k+1 times with the same weights. several: chains of 4..8 layers with two or three loop connections over pairwise disjoint ranges (own iteration counts and input-skip flags, one shared accumulation), same oracle; for overwrite without input skips the network with every range physically repeated. Distinct = distinct configuration descriptors."
+        "case i -> accumulation (i mod 5), input skips (i/5 mod 2), iterations k = 1 + (i/10 mod 4), representation (i/40 mod 3: dense range / spatial range of 'same' convolutions, deconvolutions, 1x1 pools and deconvolution+max-pool pairs / the same followed by a dense layer so that the loop output is flattened), the network's skip accumulation (i/7 mod 5, set although it only concerns skip connections), position of the range (start / middle / end) and its length 1..3 random, every sixth network additionally has an additive skip connection outside the looped range, every fifth has layers outside the range wrapped into feedback blocks; predict is compared with the reference (o_0 = first output of layer b, o_t = f_{a..b}(o_{t-1} [+ input of a]), passed on = combine(o_0; o_1..o_k)) within the running f32 bound; for overwrite without input skips additionally bit-exact against a plain library network in which layers a..b are physically repeated k+1 times with the same weights. several: chains of 4..8 layers with two or three loop connections over pairwise disjoint ranges (own iteration counts and input-skip flags, one shared accumulation), same oracle; for overwrite without input skips the network with every range physically repeated. Distinct = distinct configuration descriptors."
     }
     fn assumptions(&self) -> Vec<&'static str> {
         vec!["reference loop semantics written from the property statement (refmodel::RNet::forward)", "no skip connection targets a layer inside the loop range in the generated networks"]
@@ -168,6 +169,7 @@ impl Monitor for C17 {
             }
         }
         let mut out = Out::new(String::new());
+        let out_skipacc: Option<Acc>;
         if ranges.is_empty() {
             out.inconclusive = Some(format!("no loopable range in {}", cfg.describe()));
             return out;
@@ -177,6 +179,10 @@ impl Monitor for C17 {
         let (a, b) = *rng.pick(if cands.is_empty() { &ranges } else { &cands });
         cfg.loops = vec![(b, a, iters, inskips)];
         cfg.loopacc = acc;
+        // the accumulation configured for SKIP connections is independent of the loop: input
+        // skips of a loop always add the original input of layer a
+        cfg.skipacc = ACCS[((idx / 7) % 5) as usize];
+        out_skipacc = Some(cfg.skipacc);
         // sometimes an (additive) skip connection elsewhere in the network: neither its source nor
         // its target lies inside the looped range
         if idx % 6 == 5 {
@@ -210,6 +216,11 @@ impl Monitor for C17 {
                 cfg = before;
             } else if wrapped > 0 {
                 out.count("networks_with_a_loop_and_feedback_blocks", 1);
+            }
+        }
+        if let Some(sa) = out_skipacc {
+            if inskips {
+                out.cover("skip_accumulation_set_while_the_loop_has_input_skips", sa.name().to_string());
             }
         }
         let flattened = shapes[b].2;
